@@ -7,6 +7,7 @@ from .. import paths
 from ..core import FUNC, call_attr, calls_in, const, dotted, is_const, kwarg, norm, text, walk_local
 
 EXPLANATION = [
+    'C06.own-address-agreement: every Device method that sends LE Set Random Address passes the value the device holds in self.random_address afterwards (the one it stores in the same method, or self.random_address itself).',
     'C06.adv-data-verbatim: the LE set-(extended-)advertising-data / scan-response-data handlers use command.advertising_data / command.scan_response_data as received (no method call, slice or arithmetic on it).',
     'C06.link-address-fixed: in bumble.controller the self_address / peer_address of a link are passed to the Connection constructor and never assigned on an existing connection object.',
     'C06.initiate-while-scanning: in Controller.on_advertising_pdu the path to create_le_connection carries no condition on the scan state: reporting to a scanner and completing a pending connection are independent.',
@@ -475,7 +476,33 @@ def adv_data_verbatim(ctx):
     R.check(n >= 6, rule, f'{CTRL} | set-data handlers', f'{n} uses of the command payload', f'only {n} uses found')
 
 
+def own_address_agreement(ctx):
+    """The device and its controller hold the same random address: a method of Device that sends LE Set Random Address
+    passes `self.random_address`, or - when it also stores a new value into self.random_address - exactly the value it
+    stores (the address on the air is the controller's, the one reported and used in pairing computations the device's)."""
+    R, p = ctx.r, ctx.p
+    rule = 'C06.own-address-agreement'
+    ci = p.cls('bumble.device.Device')
+    if ci is None:
+        R.bad(rule, 'bumble.device.Device', 'anchor missing')
+        return
+    n = 0
+    for name, fn in sorted(ci.methods.items()):
+        cmds = [c for c in ast.walk(fn) if isinstance(c, ast.Call) and call_attr(c) == 'HCI_LE_Set_Random_Address_Command']
+        if not cmds:
+            continue
+        stores = [s_ for s_ in walk_local(fn) if isinstance(s_, ast.Assign) and dotted(s_.targets[0]) == 'self.random_address']
+        for c in cmds:
+            n += 1
+            a = kwarg(c, 'random_address', 0)
+            sent = norm(a) if a is not None else None
+            want = {norm(s_.value) for s_ in stores} or {'self.random_address'}
+            R.check(sent in want and len(want) == 1, rule, f'bumble.device.Device.{name} | LE Set Random Address', f'sends `{sent}`, the value the device holds', f'{name} sends `{sent}` to the controller but the device holds `{sorted(want)}` afterwards: host and controller disagree on the own address - the peer sees one address, the device reports (and computes pairing values with) another', p.loc(c))
+    R.check(n >= 2, rule, 'bumble.device.Device | LE Set Random Address commands', f'{n}', f'only {n} found')
+
+
 RULES = [
+    ('C06.own-address-agreement', own_address_agreement),
     ('C06.adv-data-verbatim', adv_data_verbatim),
     ('C06.link-address-fixed', link_address_fixed),
     ('C06.initiate-while-scanning', initiate_while_scanning),
